@@ -64,6 +64,9 @@ func constOperands(lax bool) []tv {
 		{`(exists("x" ? (@ == $missing)))`, model.Unknown, true}, {`("x" ? (exists(@ ? (@ == $missing))) == 1)`, model.Unknown, true},
 		{"($missing == 1)", model.Unknown, true}, {`("2023-08-15".datetime() < "2023-08-15T12:00:00+01:00".datetime())`, model.Unknown, true}, {"(1.decimal(0) == 1)", model.Unknown, true},
 	}
+	// unknown through arithmetic that fails (a product beyond the doubles, a
+	// division by zero) and through a number no comparison can read
+	ops = append(ops, tv{`(exists($.h * $.h))`, model.Unknown, false}, tv{`($.h * $.h > 1)`, model.Unknown, false}, tv{`(exists($.a / 0))`, model.Unknown, false}, tv{`($.big == 1)`, model.Unknown, false}, tv{`(exists(-$.h * $.h * 10))`, model.Unknown, false})
 	if !lax {
 		ops = append(ops, tv{`($.nokey == 1)`, model.Unknown, false}, tv{`(exists($.nokey))`, model.Unknown, false})
 	} else {
@@ -235,7 +238,8 @@ func tvName(v tv) string {
 func runTables(c *h.Ctx) {
 	idx := 0
 	for _, lax := range []bool{true, false} {
-		e := &c11Eval{c: c, doc: `{"a":1,"b":"x"}`, vars: stdVars, lax: lax}
+		// (UseNumber: "big" stays the number it is written as, beyond the doubles)
+		e := &c11Eval{c: c, doc: `{"a":1,"b":"x","h":1e200,"big":1e999}`, useNum: true, vars: stdVars, lax: lax}
 		ops := constOperands(lax)
 		for _, a := range ops {
 			// unary
